@@ -34,7 +34,7 @@ def gen(rng):
     L = G.make_layout(rng, trash_states=[rng.choice(['absent', 'sticky', 'nonsticky']) for _ in range(4)],
                       alt_states=[rng.choice(['absent', 'dir']) for _ in range(4)])
     steps = L['steps']
-    TG.populate(rng, L, steps, n=rng.choice([0, 1, 2, 4, 7]))
+    TG.populate(rng, L, steps, n=rng.choice([0, 1, 2, 4, 7]), allow_invalid=rng.random() < 0.3)
     locs = [t for t in TG.trash_locations(L) if t[2]]
     for i in range(rng.choice([0, 0, 1, 2])):
         TG.add_malformed(rng, steps, rng.choice(locs)[0], rng.choice(['nodate', 'baddate', 'nopayload', 'orphan', 'nonsuffix', 'empty', 'nopath']), str(i))
@@ -129,6 +129,10 @@ def check(sim, case, st):
             rd = ML.resolve(snap0, d)
             return (rd + '/' + b) if rd else p
         pset = set(canon(p) for p in printed)
+        # a name that is not valid UTF-8 is printed with backslash escapes
+        esc = lambda q: q.encode('utf-8', 'backslashreplace').decode('utf-8')
+        top_removed = set(q if q in pset else (esc(q) if canon(esc(q)) in pset or esc(q) in pset else q) for q in top_removed)
+        pset |= set(printed)
         # names with newlines: compare on the joined text instead
         if any('\n' in p for p in top_removed):
             pset = None
